@@ -187,20 +187,20 @@ end, whatever `release_absorbed_keys` handed back -/
 theorem addPhase2_consumed (s : State) (k : Key) (m : Mapping) (h : IInv m.to s) (hc : Consumed s)
     (hm : ConsumedFor s m) :
     Consumed (addPhase2 s k m).1 ∧ ConsumedFor (addPhase2 s k m).1 m := by
-  cases ha : producesActionKey m
-  · rw [addPhase2_nonaction s k m ha]; exact ⟨hc, hm⟩
-  · cases hb : shouldAbsorb s k
-    · rw [addPhase2_noabsorb s k m ha hb]
-      exact ⟨ram_consumed hc, hm.of_sub (ram_pass_sub s)⟩
-    · rw [addPhase2_absorb s k m ha hb]
-      have h1 := releaseActionMappings_spec h
-      have c2 := releaseAbsorbedKeys_consumed _ h1.1 (ram_consumed hc)
-      refine ⟨c2.of_sub (fun _ hx => hx) (fun x hx => (afterConsume_pass_clear _ m x hx).1), ?_⟩
-      intro x hx hxp
-      have := (afterConsume_pass_clear _ m x hxp).2
-      rcases hx with hx | hx
-      · exact this.1 hx
-      · exact this.2 hx
+  have hc0 : Consumed (ramIf m s).1 :=
+    hc.of_sub (fun m' hm' => by rw [(ramIf_frame m s).2.1] at hm'; exact hm') (ramIf_pass_sub m s)
+  cases hb : absorbsNow s k m
+  · rw [addPhase2_skip s k m hb]
+    exact ⟨hc0, hm.of_sub (ramIf_pass_sub m s)⟩
+  · rw [addPhase2_run s k m hb]
+    have h1 := ramIf_spec m h
+    have c2 := releaseAbsorbedKeys_consumed _ h1.1 hc0
+    refine ⟨c2.of_sub (fun _ hx => hx) (fun x hx => (afterConsume_pass_clear _ m x hx).1), ?_⟩
+    intro x hx hxp
+    have := (afterConsume_pass_clear _ m x hxp).2
+    rcases hx with hx | hx
+    · exact this.1 hx
+    · exact this.2 hx
 
 /-- firing a mapping -/
 theorem addNewMapping_consumed (s : State) (k0 : Key) (m : Mapping) (h : IInv [] s) (hc : Consumed s) :
